@@ -17,7 +17,7 @@ class KaniSet:
 
 
 class Harness:
-    def __init__(self, name, label, tag, bound="", tiers=("quick", "thorough"), timeout=900, extra=()):
+    def __init__(self, name, label, tag, bound="", tiers=("quick", "thorough"), timeout=600, extra=()):
         self.name, self.label, self.tag, self.bound = name, label, tag, bound
         self.tiers, self.timeout, self.extra = tiers, timeout, list(extra)
 
